@@ -163,7 +163,7 @@ void* __wrap_channel_write_map(struct channel* self, size_t nbytes)
            bytes (the ring theorems C01-C03 assume one writer; this checks that the runtime keeps to it) */
         int k = wm_slot(self);
         if (k >= 0) {
-            if (g_wm[k].outstanding && g_wm[k].tid != vs_self())
+            if (g_wm[k].outstanding && g_wm[k].tid != vs_self() && !vs_thread_finished(g_wm[k].tid))   /* a mapping abandoned by a thread that has exited (error path) is not a second writer */
                 printf("V s%d %s two-writers off=%zu n=%zu first=t%d second=t%d\n", s, nm, (size_t)((uint8_t*)p - self->data), nbytes, g_wm[k].tid, vs_self());
             g_wm[k].outstanding = 1;
             g_wm[k].tid = vs_self();
